@@ -23,11 +23,12 @@ def jobs(tier, seed):
     for j in J:
         j["mod"] = "fblock"
     J += fmfile.jobs("h_file_fixedpoint", tier, sympos=True) + fmfile.jobs("h_file_repeat", tier, extra_args=[0])
-    # header tables after edit sequences: the C06 harness ends with the same walker (shares its job results with C06)
+    # header tables after edit sequences: the C06 harness ends with the same walker (C06's own assertions switched off, so a broken edit is judged by the written tables)
     from props import c06
     for j in c06.jobs(tier, seed):
-        if (j["args"][2] == 1 and j["args"][1] != -1) or tier == "thorough":
+        if j["args"][2] == 1 or tier == "thorough":
             j["mod"] = "fmedit"
+            j["args"] = j["args"][:4] + [1]   # C06's own assertions off: the run continues to the table walker
             J.append(j)
     return J
 
